@@ -55,6 +55,13 @@ def h_roundtrip(c, r):
         return      # the same obligation as above, reported there for (f, g, S)
     samecell = sx.And(cell2["origin"].id == fid, S2 == S, (g2 == g) if r >= 1 else True)
     c.prove(sx.Implies(i2 == i, samecell), "distinct-cells-distinct-ids")
+    # a decoded cell stays what it was when further ids are decoded (no shared result object)
+    try:
+        d2 = ser.deserialize(i2)
+    except Exception:
+        return
+    still = sx.And(d["origin"].id == fid, d["S"] == S, d["resolution"] == r, (d["segment"] == g) if r >= 1 else True)
+    c.prove(sx.And(d is not d2, still), "decoded-cell-unaffected-by-later-decodes")
 
 
 def h_cross_resolution(c, r1, r2):
@@ -154,6 +161,17 @@ def replay(cx):
     inp = cx["inputs"]
     p = cx["params"]
     r = p.get("r", inp.get("r"))
+    if lab == "decoded-cell-unaffected-by-later-decodes":
+        script = _PRE + """
+a = serialize(A5Cell(origin=origins[%d], segment=%d, S=%d, resolution=%d))
+b = serialize(A5Cell(origin=origins[%d], segment=%d, S=%d, resolution=%d))
+c1 = deserialize(a); snap = (c1["origin"].id, c1["segment"], c1["S"], c1["resolution"])
+c2 = deserialize(b)
+if c1 is c2 or (c1["origin"].id, c1["segment"], c1["S"], c1["resolution"]) != snap:
+    print("REPRODUCED decoded-cell-changed-by-a-later-decode"); sys.exit(1)
+print("ok")
+""" % (inp["face"], inp["segment"], inp.get("S", 0), r, inp.get("face2", 0), inp.get("segment2", 0), inp.get("S2", 0), r)
+        return {"script": script, "description": "decoded cells are independent objects"}
     if lab in ("serialize-does-not-raise", "decode-does-not-raise", "id-in-[1,2^64)", "no-unexpected-exception",
                "get_resolution(id)==r", "deserialize(serialize(cell))==cell",
                "distinct-cells-distinct-ids"):
